@@ -393,6 +393,17 @@ func (f *kindFlow) Instr(in ssa.Instruction, s *kindState) *kindState {
 				return s
 			}
 		}
+		// a value whose kind test was decided by its wrapper is handed on (bound to a name, stored, passed) still wrapped
+		if reflectMethod(x) == "" {
+			for _, a := range x.Call.Args {
+				if !isReflectValue(a.Type()) {
+					continue
+				}
+				if test, ok := f.decidedFor(a, s, 0); ok && f.wrapOf(a, s, 0) == wYes {
+					f.report(x, a, fmt.Sprintf("the value is handed on after `%s` was decided by its wrapper (an unwrapped value of that kind would have been treated by the other branch first)", test))
+				}
+			}
+		}
 		if meth := reflectMethod(x); meth != "" {
 			recv := x.Call.Args[0]
 			w := f.wrapOf(recv, s, 0)
@@ -873,4 +884,25 @@ func freshValue(v ssa.Value, depth int) bool {
 		}
 	}
 	return false
+}
+
+// decidedFor: the value (or, for a merge, one of its feasible inputs) had a kind test decided by its wrapper.
+func (f *kindFlow) decidedFor(v ssa.Value, s *kindState, depth int) (string, bool) {
+	if t, ok := s.decided[v]; ok {
+		return t, true
+	}
+	if depth > 4 {
+		return "", false
+	}
+	if ph, ok := v.(*ssa.Phi); ok {
+		for i, e := range ph.Edges {
+			if f.feas != nil && !f.feas[[2]*ssa.BasicBlock{ph.Block().Preds[i], ph.Block()}] {
+				continue
+			}
+			if t, ok := f.decidedFor(e, s, depth+1); ok {
+				return t, true
+			}
+		}
+	}
+	return "", false
 }
